@@ -6,11 +6,11 @@ import (
 	"io/ioutil"
 	"os"
 	"path/filepath"
-	"regexp"
 	"sort"
 	"strings"
 	"time"
 
+	"verif/internal/checkers"
 	"verif/internal/descgen"
 	"verif/internal/pipeline"
 	"verif/rt"
@@ -27,23 +27,6 @@ func (r *Run) generate(cases []*pipeline.Case) {
 		r.WS.Prepare(c)
 	}
 	pipeline.Parallel(len(cases), func(i int) { r.WS.Generate(cases[i]) })
-}
-
-var errClassRe = regexp.MustCompile(`(?m)^[^\s:]+\.go:\d+:\d+: (.*)$`)
-
-// buildErrClass reduces compiler output to a stable class.
-func buildErrClass(out string) string {
-	m := errClassRe.FindStringSubmatch(out)
-	if m == nil {
-		return "unknown"
-	}
-	s := m[1]
-	s = regexp.MustCompile(`\b[A-Za-z_][A-Za-z0-9_]*\.[A-Za-z_][A-Za-z0-9_.]*`).ReplaceAllString(s, "X")
-	s = regexp.MustCompile(`\b[A-Z][A-Za-z0-9_]*\b`).ReplaceAllString(s, "T")
-	if len(s) > 60 {
-		s = s[:60]
-	}
-	return s
 }
 
 // compile builds all case packages; failures are recorded per case.
@@ -83,7 +66,7 @@ func (r *Run) usable(c *pipeline.Case) bool {
 		return false
 	}
 	if c.BuildErr != "" {
-		r.violate("case-unavailable/compile/"+buildErrClass(c.BuildErr), c.Name, "", "-", "generated code does not compile: "+firstLine(c.BuildErr),
+		r.violate("case-unavailable/compile/"+checkers.BuildErrClass(c.BuildErr), c.Name, "", "-", "generated code does not compile: "+firstLine(c.BuildErr),
 			map[string]interface{}{"tags": c.Tags, "compiler": tail(c.BuildErr, 12)})
 		return false
 	}
